@@ -9,4 +9,8 @@ for e in engines/*/; do
   n=$(basename "$e")
   go1.26.8 test -c -tags verif -o "$T/$n.test" "./engines/$n" || echo "warning: engine $n does not build yet"
 done
+# race-mode builds used by C18 and C20
+for n in relay multi; do
+  go1.26.8 test -c -race -tags verif -o "$T/$n.race.test" "./engines/$n" || echo "warning: race build of $n failed"
+done
 echo "setup ok"
